@@ -364,7 +364,7 @@ func (p *cparser) parseMul() *CExpr {
 }
 
 func (p *cparser) parseUnary() *CExpr {
-	if p.isOp("!") || p.isOp("-") {
+	if p.isOp("!") || p.isOp("-") || p.isOp("*") {
 		t := p.next()
 		x := p.parseUnary()
 		return &CExpr{Op: "un", Name: t.text, Args: []*CExpr{x}, Pos: t.pos}
